@@ -864,6 +864,11 @@ def isClassRef : FieldDecl → Bool
   | .struct c _ _ => !c.inline
   | _ => false
 
+/-- a dict document -/
+def isDictVal : PyVal → Bool
+  | .dict _ => true
+  | _ => false
+
 /-- the phase-one rejection site of one supplied, non-null document value of a field of ANY
     declaration: exists exactly when `deser` rejects; flat fields keep the finer (scratch-aware)
     model `p1Site`. -/
@@ -873,7 +878,7 @@ def p1SiteD (O : Oracles) (opts : DeserOpts) (ign : Bool) (scr : List (Option St
   else match deser O opts ign f v with
     | .ok _ => none
     | .error e =>
-      if isClassRef f && (match v with | .dict _ => true | _ => false)
+      if isClassRef f && isDictVal v
       then some ⟨name, .nested, none, e⟩
       else some ⟨name, .named, some (dHead O opts f name.toList v), e⟩
 
